@@ -111,3 +111,13 @@ Theorem C05_translated_sync_loop_is_try_sync_full : forall exec fuel st,
   GoLiteSyncRefine.code_try_sync exec fuel st = try_sync exec fuel st.
 Proof. exact GoLiteSyncRefine.code_try_sync_is_try_sync. Qed.
 Print Assumptions C05_translated_sync_loop_is_try_sync_full.
+
+(* ---- the start of NewManager TRANSLATED FROM THE SOURCE (Check/GoLiteStartup.v, regenerated on every run) ----------
+   Whenever the initial state was obtained, the start-up asks the store to set its height to EXACTLY the state's
+   LastBlockHeight, in every world (go_NewManager_start gives the complete call sequence): the write by which a
+   start-up repairs a process that died between the state write and the height write of a block. *)
+From Verif Require Check.GoLiteStartup.
+Theorem C05_translated_startup_sets_the_height_full : forall w : GoLiteStartup.nworld,
+  GoLiteStartup.n_init_ok w = true -> In (GoLiteStartup.height_call w) (snd (GoLiteStartup.start_expect w)).
+Proof. exact GoLiteStartup.startup_always_sets_the_height. Qed.
+Print Assumptions C05_translated_startup_sets_the_height_full.
